@@ -221,6 +221,19 @@ func execCert(env Env, t *world.TaskSpec, out *Outcome) {
 	// reference reading of the certificate: which lines are clause lines, is every one RUP in order,
 	// is every one entailed, where is the first empty clause
 	rup := ref.NewRUP(t.N, t.Clauses)
+	// entailment: enumeration for small problems; otherwise the problem plus the negation of the line
+	// is refuted by the reference DPLL
+	entailed := func(c []int) bool {
+		if t.N <= 14 {
+			ok, _ := prob.Entails(ref.Clause(c...))
+			return ok
+		}
+		cl := copyClauses(t.Clauses)
+		for _, l := range c {
+			cl = append(cl, []int{-l})
+		}
+		return !ref.CNFSat(t.N, cl)
+	}
 	allRUP := true
 	mustAccept := true
 	allEntailed := true
@@ -240,10 +253,12 @@ func execCert(env Env, t *world.TaskSpec, out *Outcome) {
 			// demanded for such a line, nor for what follows it (the checker stops at a rejected line)
 			mustAccept = false
 		}
-		if allRUP && !rup.Check(c) {
+		viaRUP := allRUP && rup.Check(c)
+		if !viaRUP {
 			allRUP = false
 		}
-		if ok, _ := prob.Entails(ref.Clause(c...)); !ok && allEntailed {
+		// a line derived by unit propagation from the problem and earlier derived lines is a consequence
+		if allEntailed && !viaRUP && !entailed(c) {
 			allEntailed = false
 			firstNotEntailed = ln
 		}
